@@ -20,7 +20,7 @@ from tola.assembly.scaffold import Scaffold
 
 BIG = 10**12
 GAP_TYPES = ["scaffold", "contig", "centromere", "short_arm", "heterochromatin", "telomere", "repeat", "contamination"]
-FRAG_NAMES = ["c1", "a:b", "x-1:2-3"]
+FRAG_NAMES = ["c1", "a:b", "x-1:2-3", "p q r"]
 COORDS = [(1, 1), (1, 5), (5, BIG)]
 TAGSETS = [(), ("Painted",), ("Painted", "X")]
 
@@ -32,13 +32,14 @@ REDUCED = [
     ("F", "a:b", 5, BIG, -1, ("Painted",)),
     ("F", "x-1:2-3", 1, 1, 0, ("Painted", "X")),
     ("F", "c1", 1, 1, -1, ()),
+    ("F", " p q", 2, 3, 1, ()),
     ("G", 200, "scaffold"),
     ("G", 200, "contig"),
     ("G", 1, "centromere"),
     ("G", BIG, "short_arm"),
 ]
-NAMES = ["s1", "a:b", "x-1", "1:2-3", "s 1", "_", "scé"]
-HEADERS = [(), ("HiC MAP RESOLUTION: 2.500000 bp/texel",), ("text with  inner spaces", "second: line")]
+NAMES = ["s1", "a:b", "x-1", "1:2-3", "s 1", "_", "scé", " s1", "s1 "]
+HEADERS = [(), ("HiC MAP RESOLUTION: 2.500000 bp/texel",), ("text with  inner spaces", "second: line", "trailing blank ")]
 
 
 def build(spec, headers=()):
@@ -106,7 +107,7 @@ class C05(Check):
         "CLI: asm-format on S2 texts (stdin and file, AGP<->TPF). non-trivial = assembly with a gap, a tag, a non-plain name or a coordinate >= 10^12, or any corruption case"
     )
     assumptions = [
-        "domain as the statement gives it: names/tags without tab/newline and without leading/trailing blanks, non-empty, neighbouring scaffold names distinct; header lines not starting with '#' or blank",
+        "domain as the statement gives it: names without tab/newline (inner, leading and trailing blanks are in scope), non-empty, neighbouring scaffold names distinct; tags without trailing blanks (last column); header lines not starting with '#' or blank",
         "TPF domain: no tags, strands +/-, no scaffold starting with a gap, gap types in [a-z_]",
     ]
 
